@@ -419,6 +419,43 @@ M("c05-silent-nested-if", "C05", AP, "            if alignment.reference_id == -
   "            if alignment.reference_id == -1:\n                continue\n            if alignment.is_supplementary:\n                continue\n            if self.params.no_secondary:\n                if alignment.is_secondary:\n                    continue\n\n            if self.params.min_mapq and alignment.mapping_quality < self.params.min_mapq:\n                continue\n\n            read_id = alignment.query_name\n            logger.debug",
   expect="silent", note="compound condition rewritten as nested ifs")
 
+TAIL = "        last_covered = split_regions[-1][1] if split_regions else genomic_region[0] - 1\n        if last_covered < genomic_region[1]:\n            split_regions.append((last_covered + 1, genomic_region[1]))\n\n        return split_regions"
+M("c05-revert-tail-region", "C05", AP, TAIL, "        return split_regions", rule="D6",
+  note="revert of fix ee9157a: tail after a valley in the last bin / single-bin pile-up is in no sub-region")
+M("c05-tail-only-nonempty", "C05", AP, TAIL,
+  "        if split_regions and split_regions[-1][1] < genomic_region[1]:\n            split_regions.append((split_regions[-1][1] + 1, genomic_region[1]))\n\n        return split_regions",
+  rule="D6", note="tail repaired only when the list is non-empty: a single-bin pile-up still returns []")
+M("c05-region-gap", "C05", AP, "split_regions.append((max(current_start * AbstractAlignmentStorage.COVERAGE_BIN + 1, genomic_region[0]),",
+  "split_regions.append((max(current_start * AbstractAlignmentStorage.COVERAGE_BIN + 2, genomic_region[0]),", rule="D6",
+  note="consecutive sub-regions leave one position uncovered")
+M("c05-region-end-one-bin-short", "C05", AP, "min(pos * AbstractAlignmentStorage.COVERAGE_BIN, genomic_region[1])))",
+  "min((pos - 1) * AbstractAlignmentStorage.COVERAGE_BIN, genomic_region[1])))", rule="D6",
+  note="sub-region ends one bin before the next one starts")
+M("c05-tail-gap", "C05", AP, "split_regions.append((last_covered + 1, genomic_region[1]))", "split_regions.append((last_covered + 2, genomic_region[1]))",
+  rule="D6", note="tail region starts two past the covered prefix")
+M("c05-silent-tail-guard-form", "C05", AP, TAIL,
+  "        if not split_regions:\n            return [genomic_region]\n        if split_regions[-1][1] < genomic_region[1]:\n            split_regions.append((split_regions[-1][1] + 1, genomic_region[1]))\n\n        return split_regions",
+  expect="silent", note="tail repair written with an early return for the empty list and direct subscripts")
+M("c05-silent-tail-overlap", "C05", AP, "split_regions.append((last_covered + 1, genomic_region[1]))", "split_regions.append((last_covered, genomic_region[1]))",
+  expect="silent", note="tail region overlaps the previous one by a position: nothing uncovered (duplicates are resolved later)")
+M("c05-revert-end-bin", "C05", AP, "end_index = self.alignment_start_index[end_bin + 1]", "end_index = self.alignment_start_index[end_bin]",
+  rule="D7", note="revert of fix c0ee55d")
+M("c05-start-bin-late", "C05", AP, "start_index = self.alignment_end_index[start_bin]", "start_index = self.alignment_end_index[start_bin + 1]",
+  rule="D7", note="slice starts one bin late: alignments ending in the region's first bin skipped")
+M("c05-fill-short", "C05", AP, "        for pos in range(current_bin_region_end + 1, current_bin_region_start - 1, -1):\n            if pos not in self.alignment_start_index:",
+  "        for pos in range(current_bin_region_end, current_bin_region_start - 1, -1):\n            if pos not in self.alignment_start_index:",
+  rule="D7", note="start index not filled for last bin + 1")
+M("c05-end-index-keyed-by-open-end", "C05", AP, "bin_end_position = (alignment.reference_end - 1) // self.COVERAGE_BIN",
+  "bin_end_position = alignment.reference_end // self.COVERAGE_BIN", rule="D7", note="end index keyed by the half-open end")
+M("c05-fetch-half-open", "C05", AP, "bp[0].fetch(self.chr_id, self.start, self.end + 1,", "bp[0].fetch(self.chr_id, self.start, self.end,",
+  rule="D7", note="BAM fetch misses alignments starting at the last position of the region")
+M("c05-no-overlap-filter", "C05", AP, "            if overlaps(region, (alignment.reference_start, alignment.reference_end - 1)):\n                yield bam_index, alignment",
+  "            if alignment.reference_start <= region[1]:\n                yield bam_index, alignment", rule="D7",
+  note="candidate filter is no longer the closed-interval overlap")
+M("c05-silent-inline-bins", "C05", AP, "        end_bin = region[1] // self.COVERAGE_BIN\n        end_index = self.alignment_start_index[end_bin + 1]",
+  "        end_index = self.alignment_start_index[region[1] // AbstractAlignmentStorage.COVERAGE_BIN + 1]", expect="silent",
+  note="bin computed inline, other spelling of the constant")
+
 # ---------------------------------------------------------------- C07
 M("c07-revert-tmp-close", "C07", DSP, "    tmp_printer.close()\n\n    logger.info(\"Finished processing chromosome \" + chr_id)", "    logger.info(\"Finished processing chromosome \" + chr_id)",
   rule="R1", note="revert: temp-file printer open (terminator unwritten) when _collected is created")
